@@ -11,7 +11,7 @@ Rounding as the code does it.
 The model is polymorphic: `Rint α` supplies round-half-even-to-integer; instances: `Float` (here) and
 `ℝ` (GnpyProofs/Lemmas/Round.lean).
 -/
-namespace Gnpy
+namespace Gnpy.HE
 
 /-- round to the nearest integer value, ties to even (`numpy.rint`) -/
 class Rint (α : Type) where
@@ -42,4 +42,4 @@ def tieMargin2 (x : Float) : Float :=
   let y := x * 100.0
   Float.abs (y - Float.floor y - 0.5)
 
-end Gnpy
+end Gnpy.HE
